@@ -21,6 +21,9 @@
                                  [shadowing_risk_prog] holds of the source AND the first ill-typed stage is core
                                  AND the failure is an occurrence resolved to a binder of another chirality/type
                                  (or two parameters of the same name in a shared continuation share_<def>_<k>)
+     VIOL class=call-to-main-typing <name> core: <why>      the known fun2core call-to-main defect (C02): ONLY when
+                                 [calls_main_prog] holds of the source AND the first ill-typed stage is core
+                                 AND the failure is the arity of a call of main
      VIOL class=ill-typed-stage:<stage> <name> <why>        any other failure of a checker
      VIOL class=internal-failure:<stage> <name> <panic message>    any non-capacity panic, any panic within capacity
      OK k nt <risk> x86:<ok|ok-beyond|cap> a64:<..> rv:<ok|ok-beyond|cap|noprint> ctx<log2 max context> size<log2 nodes>
@@ -167,6 +170,10 @@ Definition wtstages_case (i r : sexp) : verdict :=
           | Some (st, (true, why)) =>
               if risk && String.eqb st "core" && is_rebinding_message why
               then VViol ("class=capture-under-binder " ++ name ++ " core: " ++ trunc 300 why)
+              (* known finding call-to-main (C02): main is compiled without a return continuation, a call
+                 of main passes one - the FIRST ill-typed stage is core and the failure is that call's arity *)
+              else if calls_main_prog fp && String.eqb st "core" && contains "call main: wrong number of arguments" why
+              then VViol ("class=call-to-main-typing " ++ name ++ " core: " ++ trunc 300 why)
               else VViol ("class=ill-typed-stage:" ++ st ++ " " ++ name ++ " " ++ trunc 300 why)
           | Some (st, (false, msg)) =>
               VViol ("class=internal-failure:" ++ st ++ " " ++ name ++ " " ++ trunc 300 msg)
